@@ -40,6 +40,9 @@ type node struct {
 	Kids   []*node // object: parallel to Keys; array: items
 }
 
+// fullJSON: take the JSON form of every composite node too (thorough tier)
+var fullJSON bool
+
 func walk(env envs.Environment, v types.XValue, depth int) *node {
 	if types.IsNil(v) {
 		return &node{Kind: "nil"}
@@ -56,10 +59,16 @@ func walk(env envs.Environment, v types.XValue, depth int) *node {
 		}()
 		n.Render = v.Render()
 		n.Format = v.Format(env)
-		if j, err := types.ToXJSON(v); err == nil {
-			n.JSON = j.Native()
-		} else {
-			n.JSON = "ERR"
+		// JSON of a composite is assembled from the JSON of its members, which are walked themselves: it is taken
+		// for every leaf and for the composites down to depth 2 (json(contact), json(parent.contact), json(run), ...)
+		_, isObj := v.(*types.XObject)
+		_, isArr := v.(*types.XArray)
+		if (!isObj && !isArr) || depth <= 2 || fullJSON {
+			if j, err := types.ToXJSON(v); err == nil {
+				n.JSON = j.Native()
+			} else {
+				n.JSON = "ERR"
+			}
 		}
 	}()
 	switch t := v.(type) {
